@@ -1,7 +1,7 @@
 """C18 — Base64 conforms to RFC 4648 and round-trips.
 Correspondence: Base64::encode / Base64::decode (real code) vs Rws.Base64 (Lean model);
 oracle on the implementation alone: Python's base64 module + the property's reject rule."""
-import base64
+import base64, itertools
 from vlib import common as C
 
 ALPHABET = 'ABCDEFGHIJKLMNOPQRSTUVWXYZabcdefghijklmnopqrstuvwxyz0123456789+/'
@@ -32,6 +32,20 @@ def run(res, tier, seed):
         n = rng.choice(sizes) if rng.chance(1, 3) else rng.range(0, 200)
         if tier == 'quick' and n > 9000 and i % 10: n = n % 300
         enc(rng.bytes(n))
+    # 2b. low-entropy inputs: constant fills, every string of length 4..8 over a three-byte alphabet holding 0, periodic strings whose
+    #     tail repeats (part of) an earlier group - an encoder that remembers or shares work between groups is only wrong on such inputs
+    for fill in (0, 0xff, 0x4d, 0x41):
+        for n in range(3, 50): enc(bytes([fill]) * n)
+    for alpha in ((0, 0x4d, 0xff), (0, 1, 0x61)):
+        for n in range(4, 9 if tier == 'quick' else 10):
+            for tup in itertools.product(alpha, repeat=n): enc(bytes(tup))
+    for i in range(400 if tier == 'quick' else 6000):
+        g = [rng.bytes(3) for _ in range(rng.range(1, 4))]
+        if rng.chance(1, 2): g[0] = bytes([0]) * rng.range(1, 2) + g[0][:2]; g[0] = g[0][:3]
+        body = b''.join(rng.choice(g) for _ in range(rng.range(1, 12)))
+        src = rng.choice(g)
+        tail = rng.choice([src[:1], src[:2], src[1:], src[2:], src[1:2], b''])
+        enc(body + tail)
     # 3. decoder: valid texts, every single-character corruption, padding shapes
     valid = []
     for n in list(range(0, 10)) + [31, 32, 33]:
@@ -47,7 +61,6 @@ def run(res, tier, seed):
             dec(t[:pos] + t[pos+1:], 'delete')
             dec(t[:pos] + rng.choice(repl) + t[pos:], 'insert')
     pad_alpha = 'AQz/=='
-    import itertools
     for n in range(0, 6 if tier == 'quick' else 7):
         for tup in itertools.product('Az=!', repeat=n):
             dec(''.join(tup), 'shape')
@@ -63,7 +76,7 @@ def run(res, tier, seed):
 
     impl, model = C.run_both(lines)
     res.rule = ('encode: exhaustive over all byte strings of length 0..2 (65 793) plus %s 2-byte prefixes x all 256 third '
-                'bytes through the block op b64x3, plus random strings of every length residue up to 64 KiB; decode: valid '
+                'bytes through the block op b64x3, plus random strings of every length residue up to 64 KiB, constant fills, all strings of length 4..8 over two three-byte alphabets containing 0 and periodic strings whose tail repeats part of an earlier group; decode: valid '
                 'texts, every single-character corruption/deletion/insertion, all strings of length<=%d over {A,z,=,!}, random '
                 'strings; a case is non-trivial when its input is non-empty; distinct = distinct protocol lines'
                 % ('all 65 536' if tier == 'thorough' else '512 sampled', 5 if tier == 'quick' else 6))
